@@ -6,6 +6,7 @@ import PygModel.Sort
 import PygProofs.Lemmas.CmpLemmas
 import PygProofs.Lemmas.NativeLemmas
 import PygModel.SortTable
+import PygModel.SortCode
 
 namespace Pyg.Props.C07
 open Pyg
@@ -800,5 +801,204 @@ example : Adjacent (fun a b => ∃ o, Cell.native a b = some o ∧ o ≠ .gt) [C
   ⟨⟨.eq, by decide, by decide⟩, ⟨.lt, by decide, by decide⟩, trivial⟩
 
 end round_i2
+
+/-! ### round k2: `sort` as the code runs it - the three branch predicates and the TypeError fallback (review v2 item 4) -/
+section round_k2
+open List List.MergeSort.Internal
+
+theorem merge_congr {α} (le1 le2 : α → α → Bool) : ∀ (xs ys : List α),
+    (∀ a ∈ xs, ∀ b ∈ ys, le1 a b = le2 a b) → List.merge xs ys le1 = List.merge xs ys le2
+  | [], ys, _ => by simp
+  | x :: xs, [], _ => by simp
+  | x :: xs, y :: ys, h => by
+      rw [List.cons_merge_cons, List.cons_merge_cons, h x (by simp) y (by simp)]
+      split
+      · rw [merge_congr le1 le2 xs (y :: ys) (fun a ha b hb => h a (by simp [ha]) b hb)]
+      · rw [merge_congr le1 le2 (x :: xs) ys (fun a ha b hb => h a ha b (by simp [hb]))]
+
+/-- a merge sort only looks at its comparison on the members of the list -/
+theorem mergeSort_congr {α} (le1 le2 : α → α → Bool) : ∀ (l : List α),
+    (∀ a ∈ l, ∀ b ∈ l, le1 a b = le2 a b) → l.mergeSort le1 = l.mergeSort le2
+  | [], _ => by simp
+  | [a], _ => by simp
+  | a :: b :: xs, h => by
+    have h1 : (splitInTwo ⟨a :: b :: xs, rfl⟩).1.1.length < xs.length + 1 + 1 := by simp [splitInTwo_fst]; omega
+    have h2 : (splitInTwo ⟨a :: b :: xs, rfl⟩).2.1.length < xs.length + 1 + 1 := by simp [splitInTwo_snd]; omega
+    have happ := splitInTwo_fst_append_splitInTwo_snd (⟨a :: b :: xs, rfl⟩ : { l : List α // l.length = xs.length + 1 + 1 })
+    have m1 : ∀ x ∈ (splitInTwo ⟨a :: b :: xs, rfl⟩).1.1, x ∈ a :: b :: xs := fun x hx => by
+      have : x ∈ (⟨a :: b :: xs, rfl⟩ : { l : List α // l.length = xs.length + 1 + 1 }).val := happ ▸ List.mem_append_left _ hx
+      exact this
+    have m2 : ∀ x ∈ (splitInTwo ⟨a :: b :: xs, rfl⟩).2.1, x ∈ a :: b :: xs := fun x hx => by
+      have : x ∈ (⟨a :: b :: xs, rfl⟩ : { l : List α // l.length = xs.length + 1 + 1 }).val := happ ▸ List.mem_append_right _ hx
+      exact this
+    rw [mergeSort, mergeSort]
+    rw [mergeSort_congr le1 le2 _ (fun x hx y hy => h x (m1 x hx) y (m1 y hy)),
+        mergeSort_congr le1 le2 _ (fun x hx y hy => h x (m2 x hx) y (m2 y hy))]
+    exact merge_congr le1 le2 _ _ (fun x hx y hy =>
+      h x (m1 x (List.mem_mergeSort.1 hx)) y (m2 y (List.mem_mergeSort.1 hy)))
+termination_by l => l.length
+
+/-- `cmp` on spelled scalars is `cmp` on the cells they denote -/
+theorem cmpPy_of_cell (a b : PyCell) (x y : Cell) (ha : a.cell? = some x) (hb : b.cell? = some y) :
+    cmpPy a b = cmp (.cell x) (.cell y) := by
+  cases a <;> cases b <;> simp_all [PyCell.cell?, cmpPy, PyCell.prim, cmpNaT]
+
+/-- **wherever the native comparison `sorted()` performs is defined, it is `cmp`** (bool-free members; through `native_agrees`) -/
+theorem nativeKey_agrees (a b : PyCell) (ha : a.isBool = false) (hb : b.isBool = false) (o : Ordering)
+    (h : a.nativeKey b = some o) : cmpPy a b = o := by
+  unfold PyCell.nativeKey at h
+  cases hx : a.cell? with
+  | none => simp [hx] at h
+  | some x =>
+    cases hy : b.cell? with
+    | none => simp [hx, hy] at h
+    | some y =>
+      simp only [hx, hy] at h
+      rw [cmpPy_of_cell a b x y hx hy]
+      apply native_agrees x y _ _ o h
+      · cases a <;> simp_all [PyCell.cell?, PyCell.isBool] <;> (subst hx; first | exact ha | rfl)
+      · cases b <;> simp_all [PyCell.cell?, PyCell.isBool] <;> (subst hy; first | exact hb | rfl)
+
+theorem cmpPyLe_trans (a b c : PyCell) : cmpPyLe a b = true → cmpPyLe b c = true → cmpPyLe a c = true := by
+  unfold cmpPyLe cmpPy; exact fun h1 h2 => cmpNaT_trans _ _ _ h1 h2
+
+theorem cmpPyLe_total (a b : PyCell) : (cmpPyLe a b || cmpPyLe b a) = true := by
+  unfold cmpPyLe cmpPy
+  rw [cmpNaT_antisymm a.prim b.prim]
+  cases cmpNaT b.prim a.prim <;> rfl
+
+/-- **THE BRANCHES OF `sort` ARE UNOBSERVABLE: whichever return statement a list of scalars reaches - `Cmp` key because of a NaN /
+NaT, native sort of the `as_primitive` images because of a numpy number, native sort of the objects, `Cmp` key after a TypeError -
+the result is the stable `cmp`-sort of the input.**  For all lists of spelled scalars without bools (python / numpy numbers incl.
+NaN and ±inf, strings, datetimes, Timestamps, NaT, None).  `xs.mergeSort cmpPyLe` is an independent specification: it does not
+mention the predicates or the native order. -/
+theorem codeSort_eq_cmpSort (xs : List PyCell) (hb : ∀ c ∈ xs, c.isBool = false) :
+    codeSort xs = xs.mergeSort cmpPyLe := by
+  unfold codeSort
+  split
+  · rfl
+  · cases hns : nativeSorted xs with
+    | none => rfl
+    | some l =>
+      simp only
+      unfold nativeSorted at hns
+      by_cases hlen : xs.length ≤ 1
+      · simp only [hlen, if_true, Option.some.injEq] at hns
+        subst hns
+        match xs, hlen with
+        | [], _ => simp
+        | [a], _ => simp
+        | a :: b :: t, h => simp at h
+      · simp only [hlen, if_false] at hns
+        by_cases hall : allComparable xs = true
+        · simp only [hall, if_true, Option.some.injEq] at hns
+          subst hns
+          apply mergeSort_congr
+          intro a ha b hb'
+          have hc : (a.nativeKey b).isSome = true := by
+            simp only [allComparable, List.all_eq_true] at hall
+            exact hall a ha b hb'
+          obtain ⟨o, ho⟩ := Option.isSome_iff_exists.1 hc
+          have := nativeKey_agrees a b (hb a ha) (hb b hb') o ho
+          simp only [PyCell.nativeLe, ho, cmpPyLe, this]
+          cases o <;> rfl
+        · simp [hall] at hns
+
+/-- `sort(xs)` is a permutation of `xs` ... -/
+theorem codeSort_perm (xs : List PyCell) (hb : ∀ c ∈ xs, c.isBool = false) : (codeSort xs).Perm xs := by
+  rw [codeSort_eq_cmpSort xs hb]; exact List.mergeSort_perm _ _
+
+/-- ... non-decreasing under `cmp` on every pair, on every branch ... -/
+theorem codeSort_sorted (xs : List PyCell) (hb : ∀ c ∈ xs, c.isBool = false) :
+    (codeSort xs).Pairwise (fun a b => cmpPyLe a b = true) := by
+  rw [codeSort_eq_cmpSort xs hb]; exact List.pairwise_mergeSort cmpPyLe_trans cmpPyLe_total xs
+
+/-- ... and stable: members already in `cmp` order keep their relative positions (e.g. `1` before `1.0` before `np.int64(1)`) -/
+theorem codeSort_stable (xs c : List PyCell) (hb : ∀ c ∈ xs, c.isBool = false)
+    (hc : c.Pairwise (fun a b => cmpPyLe a b = true)) (hs : c.Sublist xs) : c.Sublist (codeSort xs) := by
+  rw [codeSort_eq_cmpSort xs hb]; exact List.sublist_mergeSort cmpPyLe_trans cmpPyLe_total hc hs
+
+/-! which lists take which branch -/
+
+theorem codeBranch_cmpKey_iff (xs : List PyCell) : codeBranch xs = .cmpKey ↔ ∃ c ∈ xs, c.hasNan = true := by
+  unfold codeBranch
+  split
+  · rename_i h; simpa using (List.any_eq_true.1 h)
+  · rename_i h
+    constructor
+    · intro h'; split at h' <;> (try split at h') <;> cases h'
+    · intro h'; exact absurd (List.any_eq_true.2 h') h
+
+/-- the TypeError fallback: no NaN / NaT, two or more members, and two of them python cannot compare (`None` with anything - itself
+included -, a number with a string, a string with a datetime ...) -/
+theorem codeBranch_fallback_iff (xs : List PyCell) :
+    codeBranch xs = .fallback ↔ (∀ c ∈ xs, c.hasNan = false) ∧ 2 ≤ xs.length ∧ ∃ a ∈ xs, ∃ b ∈ xs, a.nativeKey b = none := by
+  unfold codeBranch nativeSorted
+  by_cases hn : xs.any PyCell.hasNan = true
+  · simp only [hn, if_true]
+    constructor
+    · intro h; cases h
+    · rintro ⟨h, -⟩
+      obtain ⟨c, hc, hc'⟩ := List.any_eq_true.1 hn
+      rw [h c hc] at hc'; cases hc'
+  · have hn' : ∀ c ∈ xs, c.hasNan = false := fun c hc => by
+      cases h : c.hasNan
+      · rfl
+      · exact absurd (List.any_eq_true.2 ⟨c, hc, h⟩) hn
+    simp only [hn, if_false, Bool.false_eq_true]
+    by_cases hl : xs.length ≤ 1
+    · simp only [hl, if_true]
+      constructor
+      · intro h; split at h <;> cases h
+      · rintro ⟨-, h2, -⟩; omega
+    · simp only [hl, if_false]
+      by_cases ha : allComparable xs = true
+      · simp only [ha, if_true]
+        constructor
+        · intro h; split at h <;> cases h
+        · rintro ⟨-, -, a, ha', b, hb', hab⟩
+          simp only [allComparable, List.all_eq_true] at ha
+          have := ha a ha' b hb'
+          rw [hab] at this; cases this
+      · simp only [ha, if_false, Bool.false_eq_true, true_iff]
+        refine ⟨hn', by omega, ?_⟩
+        have ha2 : allComparable xs = false := by simpa using ha
+        simp only [allComparable, List.all_eq_false] at ha2
+        obtain ⟨a, ha', hab⟩ := ha2
+        have hab2 : (xs.all fun b => (a.nativeKey b).isSome) = false := by simpa using hab
+        obtain ⟨b, hb', hab3⟩ := List.all_eq_false.1 hab2
+        refine ⟨a, ha', b, hb', ?_⟩
+        cases h : a.nativeKey b
+        · rfl
+        · rw [h] at hab3; exact absurd rfl hab3
+
+/-- python compares two present scalars exactly when both are numbers, both strings, or both datetimes (Timestamps included) -/
+def sameNativeClass (a b : PyCell) : Bool :=
+  match a.cell?, b.cell? with
+  | some x, some y => (x.numKey?.isSome && y.numKey?.isSome) ||
+      (match x, y with | .str _, .str _ => true | .dt _, .dt _ => true | _, _ => false)
+  | _, _ => false
+
+theorem nativeKey_isSome_iff (a b : PyCell) : (a.nativeKey b).isSome = sameNativeClass a b := by
+  unfold PyCell.nativeKey sameNativeClass
+  cases a.cell? with
+  | none => rfl
+  | some x =>
+    cases b.cell? with
+    | none => rfl
+    | some y => cases x <;> cases y <;> simp [Cell.native, Cell.numKey?]
+
+#guard codeBranch [.py (.int 3), .np (.int 2), .py (.int 1)] == .nativePrim
+#guard codeBranch [.py (.int 3), .py .none] == .fallback
+#guard codeBranch [.py .none] == .native
+#guard codeBranch [.py (.int 3), .py (.flt 4), .ts 5] == .fallback
+#guard codeBranch [.py (.dt 3), .ts 5, .nat] == .cmpKey
+#guard codeBranch [.py (.dt 9), .ts 5] == .native
+#guard (codeSort [.py (.int 3), .np (.int 2), .py .none, .py (.str "a"), .py (.flt 4)]).map PyCell.prim |>.map (fun v => match v with | .val v => v.render | .nat => "NAT")
+   |> (· == ["N", "F:4", "I:2", "I:3", "S:61"])
+/-- the hypothesis of the theorems on a list that takes the numpy branch: `sort([3, np.uint8(2), 1])` -/
+example : ∀ c ∈ [PyCell.py (.int 3), .np (.int 2), .py (.int 1)], c.isBool = false := by decide
+
+end round_k2
 
 end Pyg.Props.C07
